@@ -14,7 +14,12 @@
                                                sum_c (W_c/W) m_c m_c^T, priors W_c/W.
    A dataset is a list of batches (C03Model.data); a feature is a function X -> Q (for vectors: nth j).
    sqrt is not a function on Q: the unit-variance parameters take the standard deviation s as an argument
-   (law s*s == variance stated where it is used) and uv_accept is the multiplicative acceptance test. *)
+   (law s*s == variance stated where it is used) and uv_accept is the multiplicative acceptance test.
+   Eigen-decompositions / the semi-definite solver are not modelled: the trainers built on them (whitening, ZCA,
+   PCA, LDA, linear regression) are modelled by the EXACT evaluation of the property's predicate on the
+   parameters the implementation returned (doubles are rationals): gradient of the regularised error, mean and
+   covariance of the model output on the training data, Gram matrix of the directions, eigen-equation and
+   solver residuals. *)
 From Coq Require Import List Arith Bool QArith.
 From SharkV Require Import ListAux C03Model.
 Import ListNotations.
@@ -24,9 +29,11 @@ Section Stats.
 Context {X : Type}.
 
 (* sum(as_columns(batch)) for one feature *)
-Definition bsum (f : X -> Q) (b : list X) : Q := fold_right (fun x a => f x + a) 0 b.
+(* Qred (reduction to lowest terms, Qred q == q) keeps the numbers of the extracted program small; it has no
+   counterpart in the C++ and no influence on the value (C15Proofs.bsum_cons / dsum_cons). *)
+Definition bsum (f : X -> Q) (b : list X) : Q := fold_right (fun x a => Qred (f x + a)) 0 b.
 (* accumulation over the batches *)
-Definition dsum (f : X -> Q) (d : @data X) : Q := fold_right (fun b a => bsum f b + a) 0 d.
+Definition dsum (f : X -> Q) (d : @data X) : Q := fold_right (fun b a => Qred (bsum f b + a)) 0 d.
 Definition qlen (l : list X) : Q := inject_Z (Z.of_nat (length l)).
 (* double(data.numberOfElements()) *)
 Definition count (d : @data X) : Q := inject_Z (Z.of_nat (nelems d)).
@@ -71,16 +78,23 @@ Definition uv_accept (v m dg off : Q) : bool :=
   if Qeq_bool v 0 then Qeq_bool dg 0 && Qeq_bool off 0
   else Qle_bool 0 dg && Qeq_bool (dg * dg * v) 1 && Qeq_bool off (- m * dg).
 
-(* NormalizeComponentsUnitInterval as coded *)
+(* NormalizeComponentsUnitInterval: the property ("the unit interval as range"); a constant feature is sent
+   to the middle of the interval.  This is the model the implementation is compared with. *)
+Definition ui_params (mn mx : Q) : Q * Q :=
+  if Qeq_bool mn mx then (0, 1 # 2)
+  else let n := 1 / (mx - mn) in (n, - mn * n).
+(* ... and as coded in the pinned tree (finding F17): offset = -min + 0.5 for a constant feature, so the
+   output is 0.5 - c instead of 0.5 (C15Proofs.ui_coded_constant_output). *)
 Definition ui_params_coded (mn mx : Q) : Q * Q :=
-  if Qeq_bool mn mx then (0, - mn + 1 # 2)
+  if Qeq_bool mn mx then (0, - mn + (1 # 2))
   else let n := 1 / (mx - mn) in (n, - mn * n).
 
 Definition affine (p : Q * Q) (v : Q) : Q := fst p * v + snd p.
 
 (* ---- finite sums over an index range ---- *)
 Fixpoint sumn (n : nat) (f : nat -> Q) : Q :=
-  match n with O => 0 | S n' => sumn n' f + f n' end.
+  match n with O => 0 | S n' => Qred (sumn n' f + f n') end.
+Definition delta (i k : nat) : Q := if (i =? k)%nat then 1 else 0.
 
 (* ---- LinearRegression: the assembled system ---- *)
 Definition sample := (list Q * list Q)%type.          (* (input, label) *)
@@ -120,3 +134,42 @@ Definition lda_cov (K : nat) (lam : Q) (j k : nat) (l : list wsample) : Q :=
   wratio s_w (fun p => s_x j p * s_x k p) one l
   - sumn K (fun c => lda_prior c l * (lda_mean c j l * lda_mean c k l))
   + (if (j =? k)%nat then lam else 0).
+
+(* unweighted train: pooled covariance with the divisor n - K (LDA.cpp, first overload); the regularisation
+   is added only when lam > 0 *)
+Definition lda_count (c : nat) (l : list wsample) : Q := wsum one (s_in c) l.
+Definition lda_mean_u (c j : nat) (l : list wsample) : Q :=
+  wratio one (fun p => s_in c p * s_x j p) (s_in c) l.
+Definition lda_cov_u (K : nat) (lam : Q) (j k : nat) (l : list wsample) : Q :=
+  (wsum one (fun p => s_x j p * s_x k p) l
+   - sumn K (fun c => lda_count c l * (lda_mean_u c j l * lda_mean_u c k l)))
+  / (wsum one one l - inject_Z (Z.of_nat K))
+  + (if (j =? k)%nat then (if Qle_bool lam 0 then 0 else lam) else 0).
+(* residual of the solver contract  z_c C = m_c  and the data-dependent part of the bias *)
+Definition lda_residual (d : nat) (C : nat -> nat -> Q) (m z : nat -> Q) (k : nat) : Q :=
+  sumn d (fun j => z j * C j k) - m k.
+Definition lda_bias_part (d : nat) (m z : nat -> Q) : Q := - (1 # 2) * sumn d (fun j => m j * z j).
+
+(* ---- linear models on vectors (whitening, ZCA, PCA encoder/decoder) ---- *)
+Definition feat (j : nat) (x : list Q) : Q := nth j x 0.
+(* component a of  W x + b,  W given as function (row, column), input dimension d *)
+Definition lin (d : nat) (W : nat -> nat -> Q) (b : nat -> Q) (a : nat) (x : list Q) : Q :=
+  sumn d (fun j => W a j * feat j x) + b a.
+(* offset = - W mean  (NormalizeComponentsWhitening, ZCA, PCA::encoder) *)
+Definition center_off (d : nat) (W : nat -> nat -> Q) (D : @data (list Q)) (a : nat) : Q :=
+  - sumn d (fun j => W a j * mean (feat j) D).
+(* W C W^T, entry (a,c), C the covariance of the data *)
+Definition wcw (d : nat) (W : nat -> nat -> Q) (D : @data (list Q)) (a c : nat) : Q :=
+  sumn d (fun j => sumn d (fun l => W a j * cov (feat j) (feat l) D * W c l)).
+(* Gram matrix of m directions given as columns of V (d x m): (V^T V)(i,k) *)
+Definition gram (d : nat) (V : nat -> nat -> Q) (i k : nat) : Q := sumn d (fun j => V j i * V j k).
+(* eigen-equation residual  (C v_i - ev_i v_i)(j) *)
+Definition eig_residual (d : nat) (V : nat -> nat -> Q) (ev : nat -> Q) (D : @data (list Q)) (i j : nat) : Q :=
+  sumn d (fun l => cov (feat j) (feat l) D * V l i) - ev i * V j i.
+(* PCA encoder / decoder on m directions (no whitening): E x = V^T (x - mu),  D z = V z + mu *)
+Definition pca_enc (d : nat) (V : nat -> nat -> Q) (mu : nat -> Q) (i : nat) (x : nat -> Q) : Q :=
+  sumn d (fun j => V j i * (x j - mu j)).
+Definition pca_dec (m : nat) (V : nat -> nat -> Q) (mu : nat -> Q) (j : nat) (z : nat -> Q) : Q :=
+  sumn m (fun i => V j i * z i) + mu j.
+Definition pca_proj (d m : nat) (V : nat -> nat -> Q) (mu : nat -> Q) (x : nat -> Q) (j : nat) : Q :=
+  pca_dec m V mu j (fun i => pca_enc d V mu i x).
